@@ -312,18 +312,32 @@ class Inliner:
                     return ast.copy_location(ast.Name(id=rename[n.id], ctx=n.ctx), n)
                 return n
 
+            nested = 0
+
             def visit_Return(self, n: ast.Return):  # noqa: N802
                 self.generic_visit(n)
+                if self.nested:
+                    return n  # a return of a closure defined inside the helper
                 val = n.value if n.value is not None else ast.Constant(value=None)
                 new = ast.copy_location(ast.Assign(targets=[ast.Name(id=ret, ctx=ast.Store())], value=val), n)
                 new._inline_return = True  # type: ignore[attr-defined]
                 return new
 
-            def visit_FunctionDef(self, n):  # noqa: N802 - nested defs keep their own returns
+            def visit_FunctionDef(self, n):  # noqa: N802 - closures capture the helper's (substituted) variables
+                if n.name in rename:
+                    n.name = rename[n.name]
+                self.nested += 1
+                self.generic_visit(n)
+                self.nested -= 1
                 return n
 
             visit_AsyncFunctionDef = visit_FunctionDef
-            visit_Lambda = visit_FunctionDef
+
+            def visit_Lambda(self, n):  # noqa: N802
+                self.nested += 1
+                self.generic_visit(n)
+                self.nested -= 1
+                return n
 
             def visit_ExceptHandler(self, n: ast.ExceptHandler):  # noqa: N802
                 self.generic_visit(n)
